@@ -164,12 +164,12 @@ let () =
                             else begin
                               let mix = String.concat "" (List.map (fun i -> show_res_sym (s_index kn cn mst (nat_of_int i))) idx) in
                               if mix <> ixs then diff (Printf.sprintf "op%d index %s model %s" n ixs mix);
-                              (* the model's own counting loops (unary arithmetic, ~0.25 s per call at
-                                 L = 3000) are evaluated for sequences up to 1200 symbols and after the
-                                 last op of every history; the implementation's counts are compared with
+                              (* the model's own counting loops (unary arithmetic, 0.02 s per call at
+                                 L = 1000, 0.25 s at L = 3000) are evaluated for sequences up to 300 symbols
+                                 and after the last op of every history; the implementation's counts are compared with
                                  the linear sequence after EVERY op above (check_C04), and the model's
                                  counts are proved equal to those (C04_count_symbols_spec) *)
-                              let heavy = sl <= 1200 || obrest = [] in
+                              let heavy = sl <= 300 || obrest = [] in
                               if heavy then begin
                               (match count_symbols kn cn mst with
                                | Ok l -> if ints_string l <> counts then diff (Printf.sprintf "op%d count_symbols model %s" n (ints_string l))
@@ -180,7 +180,7 @@ let () =
                                   | Ok v -> if Array.length c1 <> k || c1.(x) <> string_of_int (int_of_nat v) then
                                               diff (Printf.sprintf "op%d count_symbol(%d) model %d" n x (int_of_nat v))
                                   | _ -> if count1 <> "P" then diff (Printf.sprintf "op%d count_symbol model-panics" n))
-                                (if sl <= 1200 then List.sort_uniq compare [0; k - 1; (n + sl) mod k] else [(n + sl) mod k])
+                                (if sl <= 300 then List.sort_uniq compare [0; k - 1; (n + sl) mod k] else [(n + sl) mod k])
                               end
                             end
                         | Panic site -> diff (Printf.sprintf "op%d model-panics site %d" n (int_of_nat site))
